@@ -19,4 +19,19 @@ TEXT = {
         "level_text": "Generated histories of valid API calls (chaos with payloads 0..2000 and disconnects, bursts of up to 1000 tiny chunks without flush, multi-datagram resends, contiguous length sweeps 0..1503 for vital/non-vital/connless in all three variants, disconnect from every state with every reason length 0..127) on the real endpoints; each emitted datagram is checked for size, parseability without warnings with the true token mode, chunk count and bit-identical chunks; refusals must leave the state fingerprint unchanged and the history continues.",
         "level_note": "Validity of a call is taken from the API's own assertions; a TooLongData refusal is accepted for payloads >= 1024 bytes. Coverage is what the generators produce; counters in the evidence show which branches (compressed/uncompressed, refusals, resends) were seen.",
     },
+    "C02": {
+        "technique": "runtime monitor: liveness restated as bounded progress and decided on virtual time and logical counters (chaos prefix, then fair suffix with a settle predicate; per-call callback budget for non-termination; finite-deadline assertion at every step); monitor and release profiles",
+        "level_text": "From thousands of states reached by generated fault prefixes (incl. total loss and the largest accepted chunk sizes 1023 / 1390 with multi-datagram resends) the fair suffix is executed on the real endpoints: FIFO loss-free delivery, ticks exactly at the reported deadline. The oracle demands ready, full delivery, nothing unacknowledged or queued within 10 s virtual time and 200 ticks per side; every API call must return within 100000 callback invocations; needs_tick must be finite while a retransmission is owed. No unbounded 'eventually' is claimed, only this bounded restatement.",
+        "level_note": "The bound (10 s / 200 ticks) is an assumption with >3x slack over protocol timers. PendingConnect (0.7 acceptor waiting passively) is exempt from the finite-deadline clause. Only generated prefixes are covered.",
+    },
+    "C03": {
+        "technique": "runtime monitor: fork-and-compare on the real endpoint (clone hook): foreign datagrams fed to a clone must yield no event, no send, no random draw and an identical full-state fingerprint; sampled 50-step shadow-twin differential; reserved-token assertion on every acceptor token seen on the wire",
+        "level_text": "At ~40 fork points per generated history (client and server role, every state that has fixed a token in 0.6+token and 0.7) some 30-60 foreign datagrams of every kind (wrong/rotated/peer/reserved/random/no token, real datagrams re-tokened incl. through recompression, truncations, random bytes) are fed to a clone of the real endpoint and the complete observable effect is compared with 'nothing'. The 0.7 unauthenticated token-request exception is checked separately (only a Token reply, state unchanged).",
+        "level_note": "What counts as the carried token is decided by the harness's own parser; fork points with >40 unacked chunks are skipped for cost; 0.6 without token extension fixes no token and is out of scope.",
+    },
+    "C20": {
+        "technique": "runtime monitor: differential execution of the real Net against per-address reference Connections driven by the projected sub-history (same clock, same random bytes); per-call comparison of events and datagrams, quiescent-point comparison of full peer state (hook), needs_tick, id/address uniqueness and peer removal",
+        "level_text": "Generated histories with 2-6 addresses on accepting and non-accepting endpoints: real remote connections as traffic sources over lossy wires, garbage, connless and cross-talk datagrams, all application calls, ticks. After every move the hooked peer table must match the references exactly (state fingerprint per peer, set of live addresses, distinct ids, minimum deadline) and no datagram may go to an address other than the one the call concerned.",
+        "level_note": "The projection rule (reference created with the peer; canned connect at accept) is the harness's reading of the Net API; a panic on both sides counts as equivalent (belongs to C04).",
+    },
 }
